@@ -14,6 +14,8 @@ EXPLANATION = B.MIXED + (
 def run(rep, tier):
     kernels.oracle_self_check(rep)
     kernels.run_generators(rep, ["apply_operator_vector", "apply_operator_matrix"])
+    from vf.pyvc import tensors
+    tensors.run_tensor_contracts(rep, ["C06"])
     from vf import lemmas
     lemmas.lemma_obligations(rep, ["kraus_trace", "complete_set_preserves_trace"])
     B.run_b(rep, morecells.kraus_cells(tier, common.seed()), ["C06"], tier=tier)
